@@ -4,6 +4,8 @@ package agent
 
 import (
 	"github.com/postalsys/muti-metroo/internal/config"
+	"github.com/postalsys/muti-metroo/internal/identity"
+	"github.com/postalsys/muti-metroo/internal/protocol"
 	"github.com/postalsys/muti-metroo/internal/sleep"
 )
 
@@ -28,7 +30,24 @@ func (a *Agent) VerifC30DoPoll() error { return a.doPoll() }
 
 func (a *Agent) VerifC30SleepMgr() *sleep.Manager { return a.sleepMgr }
 
+// VerifC30InPoll reports whether a poll cycle is active (doPoll has installed its wake channel).
+func (a *Agent) VerifC30InPoll() bool {
+	a.wakeSignalMu.Lock()
+	defer a.wakeSignalMu.Unlock()
+	return a.wakeSignal != nil
+}
+
+// VerifC30Process delivers one frame from a peer through the agent's ordinary frame dispatcher.
+func (a *Agent) VerifC30Process(peerID identity.AgentID, frame *protocol.Frame) {
+	a.processFrame(peerID, frame)
+}
+
 func (a *Agent) VerifC30Close() {
+	select {
+	case <-a.stopCh:
+	default:
+		close(a.stopCh) // ends a doPoll that is still in its wait
+	}
 	if a.sleepMgr != nil {
 		a.sleepMgr.Stop()
 	}
